@@ -1,5 +1,221 @@
 import GoRes.Model.Legacy
 /-! Helper lemmas for the legacy middleware model (C20). -/
 namespace GoRes.Legacy
+open GoRes
+
+/-! ## `mget` after `mset` / `mdel` -/
+
+theorem mget_nil (k : Str) : mget [] k = none := rfl
+
+theorem mget_cons (e : Str × Str) (m : List (Str × Str)) (k : Str) :
+    mget (e :: m) k = if e.1 = k then some e.2 else mget m k := by
+  unfold mget
+  by_cases h : e.1 = k <;> simp [h]
+
+theorem mget_eq_none_of_not_any (m : List (Str × Str)) (k : Str) (h : m.any (·.1 == k) = false) :
+    mget m k = none := by
+  induction m with
+  | nil => rfl
+  | cons e m ih =>
+    simp only [List.any_cons, Bool.or_eq_false_iff, beq_eq_false_iff_ne, ne_eq] at h
+    rw [mget_cons, if_neg h.1]
+    exact ih h.2
+
+theorem mget_map_self (m : List (Str × Str)) (k v : Str) (h : m.any (·.1 == k) = true) :
+    mget (m.map (fun e => if e.1 == k then (k, v) else e)) k = some v := by
+  induction m with
+  | nil => simp at h
+  | cons e m ih =>
+    rw [List.map_cons, mget_cons]
+    by_cases he : e.1 = k
+    · simp [he]
+    · have hb : (e.1 == k) = false := by simpa using he
+      simp only [hb, Bool.false_eq_true, if_false, if_neg he]
+      apply ih
+      simpa [hb] using h
+
+theorem mget_map_ne (m : List (Str × Str)) (k v k' : Str) (hne : k' ≠ k) :
+    mget (m.map (fun e => if e.1 == k then (k, v) else e)) k' = mget m k' := by
+  induction m with
+  | nil => rfl
+  | cons e m ih =>
+    rw [List.map_cons, mget_cons, mget_cons, ih]
+    by_cases he : e.1 = k
+    · have h1 : ¬ k = k' := fun h => hne h.symm
+      have h2 : ¬ e.1 = k' := fun h => hne (h.symm.trans he)
+      simp [he, h1]
+    · have hb : (e.1 == k) = false := by simpa using he
+      simp [hb]
+
+theorem mget_append (m : List (Str × Str)) (k v k' : Str) :
+    mget (m ++ [(k, v)]) k' = (mget m k').or (if k = k' then some v else none) := by
+  induction m with
+  | nil => rw [List.nil_append, mget_cons, mget_nil]; simp
+  | cons e m ih =>
+    rw [List.cons_append, mget_cons, mget_cons, ih]
+    by_cases he : e.1 = k' <;> simp [he]
+
+theorem mget_mset_self (m : List (Str × Str)) (k v : Str) : mget (mset m k v) k = some v := by
+  unfold mset
+  by_cases h : m.any (·.1 == k) = true
+  · rw [if_pos h]; exact mget_map_self m k v h
+  · rw [if_neg h, mget_append]
+    have h' : m.any (·.1 == k) = false := Bool.eq_false_iff.2 h
+    simp [mget_eq_none_of_not_any m k h']
+
+theorem mget_mset_ne (m : List (Str × Str)) (k v k' : Str) (hne : k' ≠ k) :
+    mget (mset m k v) k' = mget m k' := by
+  unfold mset
+  by_cases h : m.any (·.1 == k) = true
+  · rw [if_pos h]; exact mget_map_ne m k v k' hne
+  · rw [if_neg h, mget_append, if_neg (fun h => hne h.symm)]; simp
+
+theorem mget_mdel_self (m : List (Str × Str)) (k : Str) : mget (mdel m k) k = none := by
+  unfold mdel
+  induction m with
+  | nil => rfl
+  | cons e m ih =>
+    by_cases he : e.1 = k
+    · simp [he]; simpa using ih
+    · have : (e.1 != k) = true := by simpa using he
+      rw [List.filter_cons, if_pos this, mget_cons, if_neg he]; exact ih
+
+theorem mget_mdel_ne (m : List (Str × Str)) (k k' : Str) (hne : k' ≠ k) :
+    mget (mdel m k) k' = mget m k' := by
+  unfold mdel
+  induction m with
+  | nil => rfl
+  | cons e m ih =>
+    by_cases he : e.1 = k
+    · have h2 : ¬ e.1 = k' := fun h => hne (h.symm.trans he)
+      have : (e.1 != k) = false := by simpa using he
+      rw [List.filter_cons, this, mget_cons, if_neg h2]; simpa using ih
+    · have : (e.1 != k) = true := by simpa using he
+      rw [List.filter_cons, if_pos this, mget_cons, mget_cons, ih]
+
+/-! ## one step of `applyChange` -/
+
+/-- one property of a change event applied to the model: the new model and its `rev` entry -/
+def step (m : List (Str × Str)) (k : Str) (v : Option Str) : List (Str × Str) × List (Str × Option Str) :=
+  match mget m k, v with
+  | none, some x => (mset m k x, [(k, none)])
+  | none, none => (m, [])
+  | some ov, none => (mdel m k, [(k, some ov)])
+  | some ov, some x => if x = ov then (m, []) else (mset m k x, [(k, some ov)])
+
+theorem applyChange_nil (m : List (Str × Str)) : applyChange m [] = (m, []) := rfl
+
+theorem applyChange_cons (m : List (Str × Str)) (k : Str) (v : Option Str) (rest : List (Str × Option Str)) :
+    applyChange m ((k, v) :: rest) =
+      ((applyChange (step m k v).1 rest).1, (step m k v).2 ++ (applyChange (step m k v).1 rest).2) := by
+  rfl
+
+/-- after a step the key has the given value (absent for a delete action), other keys are untouched -/
+theorem mget_step (m : List (Str × Str)) (k : Str) (v : Option Str) (k' : Str) :
+    mget (step m k v).1 k' = if k' = k then v else mget m k' := by
+  unfold step
+  by_cases hk : k' = k
+  · subst hk
+    rw [if_pos rfl]
+    split
+    · exact mget_mset_self _ _ _
+    · assumption
+    · exact mget_mdel_self _ _
+    · next ov x h =>
+      split
+      · next hx => rw [hx]; exact h
+      · exact mget_mset_self _ _ _
+  · rw [if_neg hk]
+    split
+    · exact mget_mset_ne _ _ _ _ hk
+    · rfl
+    · exact mget_mdel_ne _ _ _ hk
+    · split
+      · rfl
+      · exact mget_mset_ne _ _ _ _ hk
+
+/-- the `rev` entry of a step: the key, its previous value, and only if the value changes -/
+theorem mem_step_rev (m : List (Str × Str)) (k : Str) (v : Option Str) (k' : Str) (ov : Option Str)
+    (h : (k', ov) ∈ (step m k v).2) : k' = k ∧ ov = mget m k ∧ v ≠ mget m k := by
+  unfold step at h
+  split at h
+  · next hg => simp at h; simp [h, hg]
+  · simp at h
+  · next hg => simp at h; simp [h, hg]
+  · next ov' x hg =>
+    split at h
+    · simp at h
+    · next hx => simp at h; simp [h, hg, hx]
+
+theorem step_same (m : List (Str × Str)) (k : Str) (v : Option Str) (h : v = mget m k) :
+    step m k v = (m, []) := by
+  unfold step
+  split
+  · next hg => rw [hg] at h; cases h
+  · rfl
+  · next hg => rw [hg] at h; cases h
+  · next ov x hg => rw [hg] at h; cases h; simp
+
+/-! ## `applyChange` -/
+
+/-- with distinct keys in `props`, the new model has exactly the given keys set (or removed) -/
+theorem mget_applyChange (props : List (Str × Option Str)) (m : List (Str × Str))
+    (hk : (props.map (·.1)).Nodup) (k : Str) :
+    mget (applyChange m props).1 k = ((props.find? (·.1 == k)).map (·.2)).getD (mget m k) := by
+  induction props generalizing m with
+  | nil => rfl
+  | cons p rest ih =>
+    obtain ⟨k0, v0⟩ := p
+    rw [List.map_cons, List.nodup_cons] at hk
+    rw [applyChange_cons]
+    show mget (applyChange (step m k0 v0).1 rest).1 k = _
+    rw [ih _ hk.2, mget_step, List.find?_cons]
+    by_cases h : k = k0
+    · subst h
+      have hnone : rest.find? (·.1 == k) = none := by
+        rw [List.find?_eq_none]
+        intro x hx hxk
+        apply hk.1
+        have : x.1 = k := by simpa using hxk
+        rw [← this]
+        exact List.mem_map_of_mem (f := (·.1)) hx
+      simp [hnone]
+    · have hb : (k0 == k) = false := by simpa using fun h' => h h'.symm
+      simp [hb, h]
+
+/-- with distinct keys in `props`, the `rev` map has exactly the previous values of the changed keys -/
+theorem mem_applyChange_rev (props : List (Str × Option Str)) (m : List (Str × Str))
+    (hk : (props.map (·.1)).Nodup) (k : Str) (ov : Option Str)
+    (h : (k, ov) ∈ (applyChange m props).2) :
+    ov = mget m k ∧ ∃ v, (k, v) ∈ props ∧ v ≠ mget m k := by
+  induction props generalizing m with
+  | nil => simp [applyChange_nil] at h
+  | cons p rest ih =>
+    obtain ⟨k0, v0⟩ := p
+    rw [List.map_cons, List.nodup_cons] at hk
+    rw [applyChange_cons] at h
+    rcases List.mem_append.1 h with h | h
+    · obtain ⟨h1, h2, h3⟩ := mem_step_rev _ _ _ _ _ h
+      subst h1
+      exact ⟨h2, v0, List.mem_cons_self, h3⟩
+    · obtain ⟨h1, v, hv, hne⟩ := ih _ hk.2 h
+      have hkk : k ≠ k0 := by
+        intro hh
+        apply hk.1
+        rw [← hh]
+        exact List.mem_map_of_mem (f := (·.1)) hv
+      rw [mget_step, if_neg hkk] at h1 hne
+      exact ⟨h1, v, List.mem_cons_of_mem _ hv, hne⟩
+
+/-- a change that sets every key to its current value does nothing -/
+theorem applyChange_same (props : List (Str × Option Str)) (m : List (Str × Str))
+    (h : ∀ kv ∈ props, kv.2 = mget m kv.1) : applyChange m props = (m, []) := by
+  induction props with
+  | nil => rfl
+  | cons p rest ih =>
+    obtain ⟨k0, v0⟩ := p
+    rw [applyChange_cons, step_same m k0 v0 (h _ List.mem_cons_self)]
+    rw [ih (fun kv hkv => h kv (List.mem_cons_of_mem _ hkv))]
+    rfl
 
 end GoRes.Legacy
